@@ -8,7 +8,7 @@
    (Props/C02.v) that the own reader recovers every scalar.  The independent
    reader of the property is run by the harness. *)
 From Coq Require Import String.
-From HS Require Import Base.Prelude Gen.JsonData Model.Value Model.Json Proofs.JsonP.
+From HS Require Import Base.Prelude Gen.JsonData Model.Value Model.Json Proofs.JsonP Proofs.JsonGridP Proofs.JsonShapeP.
 Open Scope N_scope.
 
 (* {meta:{ver,...}, cols:[...], rows:[...]} in that order, ver present, at least one column *)
@@ -47,3 +47,17 @@ Proof. exact jdump_nonfinite. Qed.
 (* 3.0-only kinds are refused under a pre-3.0 version instead of being emitted *)
 Theorem C06_gate : forall v, is_v3_only v = true -> jdump_scalar true v = Raise ValueError.
 Proof. exact jdump_gate. Qed.
+
+(* THE OBJECT, PIECE BY PIECE: for every grid with distinct column names that the writer accepts, the output is the object
+   {meta, cols, rows} in that order; meta carries ver; there is one column object per column, in order, each with the
+   column's name under "name"; there is one row object per row, and every row object has exactly one member per column, in
+   column order (every cell present - absent cells are written as null).  By induction over columns and rows. *)
+Theorem C06_object_pieces : forall f ver meta cols rows j, cols <> nil -> NoDup (map fst cols) ->
+  jdump_grid (S f) ver meta cols rows = Ok j ->
+  exists m cs rs, j = JObj (cons (s_ "meta", JObj m) (cons (s_ "cols", JArr cs) (cons (s_ "rows", JArr rs) nil))) /\
+    assoc VER m = Some (JStr ver) /\
+    Forall2 (fun c cj => exists o, cj = JObj o /\ assoc NAME o = Some (JStr (fst c))) cols cs /\
+    length rs = length rows /\ Forall (fun r => exists cells, r = JObj cells /\ map fst cells = map fst cols) rs.
+Proof. exact json_grid_pieces. Qed.
+(* and an independent reader - here the reader model - recovers the same grid: C02_full_grid *)
+Print Assumptions C06_object_pieces.
